@@ -3,6 +3,7 @@ mod common;
 mod diffgen;
 mod coqw;
 mod emit;
+mod fakeai;
 mod filegen;
 mod imp;
 mod prng;
@@ -16,6 +17,8 @@ mod props {
     pub mod c10;
     pub mod scope;
     pub mod c17;
+    pub mod c18;
+    pub mod c19;
 }
 
 use common::{CaseOut, Tier};
@@ -33,6 +36,8 @@ fn prop_header(prop: &str) -> &'static str {
         "C11" | "C13" | "C14" | "C20" => props::mix::HEADER,
         "C15" | "C16" => props::scope::HEADER,
         "C17" => props::c17::HEADER,
+        "C18" => props::c18::HEADER,
+        "C19" => props::c19::HEADER,
         _ => panic!("unknown property {prop}"),
     }
 }
@@ -46,6 +51,8 @@ fn prop_gen(prop: &str, rng: &mut Rng, idx: usize, tier: Tier) -> CaseOut {
         "C14" => props::mix::generate_c14(rng, idx, tier),
         "C20" => props::mix::generate_c20(rng, idx, tier),
         "C17" => props::c17::generate(rng, idx, tier),
+        "C18" => props::c18::generate(rng, idx, tier),
+        "C19" => props::c19::generate(rng, idx, tier),
         "C15" => props::scope::generate_c15(rng, idx, tier),
         "C16" => props::scope::generate_c16(rng, idx, tier),
         "C01" => props::drift::generate(rng, idx, tier, false),
